@@ -1,6 +1,7 @@
 package sender
 
 import (
+	"fmt"
 	"io"
 	"path/filepath"
 	"strings"
@@ -13,7 +14,7 @@ type filterRuleList struct {
 }
 
 // exclude.c:add_rule
-func (l *filterRuleList) addRule(fr *filterRule) {
+func (l *filterRuleList) addRule(fr *filterRule) error {
 	if strings.HasSuffix(fr.pattern, "/") {
 		fr.flag |= filtruleDirectory
 		fr.pattern = strings.TrimSuffix(fr.pattern, "/")
@@ -22,8 +23,10 @@ func (l *filterRuleList) addRule(fr *filterRule) {
 		return r == '*' || r == '[' || r == '?'
 	}) {
 		fr.flag |= filtruleWild
+		return fmt.Errorf("filter rule %q: wildcard patterns are not yet implemented", fr.pattern)
 	}
 	l.Filters = append(l.Filters, fr)
+	return nil
 }
 
 // exclude.c:check_filter
@@ -58,7 +61,9 @@ func RecvFilterList(c *rsyncwire.Conn) (*filterRuleList, error) {
 		if err != nil {
 			return nil, err
 		}
-		l.addRule(fr)
+		if err := l.addRule(fr); err != nil {
+			return nil, err
+		}
 	}
 	return &l, nil
 }
@@ -77,11 +82,8 @@ type filterRule struct {
 
 // exclude.c:rule_matches
 func (fr *filterRule) matches(name string) bool {
-	if fr.flag&filtruleWild != 0 {
-		panic("wildcard filter rules not yet implemented")
-	}
-	if !strings.ContainsRune(fr.pattern, '/') &&
-		fr.flag&filtruleWild == 0 {
+	// Rules with wildcards are rejected by addRule.
+	if !strings.ContainsRune(fr.pattern, '/') {
 		name = filepath.Base(name)
 	}
 	return fr.pattern == name
